@@ -143,11 +143,21 @@ func evalCase(c *Case) (string, string) {
 	if len(ops) != len(order) {
 		return "C13/readback", fmt.Sprintf("%d operations read back, %d distinct non-expired suffixes queued", len(ops), len(order))
 	}
-	for pos, i := range order {
-		want, got := c.Ops[i], ops[pos]
-		if string(got.Type) != want.Type || got.UniqueSuffix != want.Suffix {
-			return "C13/readback", fmt.Sprintf("position %d: read back %s %s, want %s %s (order must be create, recover, update, deactivate; first queued operation per suffix)", pos, got.Type, got.UniqueSuffix, want.Type, want.Suffix)
+	// stated order: create, recover, update, deactivate; the order inside a group is left open
+	wantBySuffix := map[string]gen.QOp{}
+	for _, i := range order {
+		wantBySuffix[c.Ops[i].Suffix] = c.Ops[i]
+	}
+	seenBack := map[string]bool{}
+	for pos, got := range ops {
+		if pos > 0 && typeRank[string(got.Type)] < typeRank[string(ops[pos-1].Type)] {
+			return "C13/readback", fmt.Sprintf("position %d: %s read back after %s (order must be create, recover, update, deactivate)", pos, got.Type, ops[pos-1].Type)
 		}
+		want, ok := wantBySuffix[got.UniqueSuffix]
+		if !ok || seenBack[got.UniqueSuffix] || string(got.Type) != want.Type {
+			return "C13/readback", fmt.Sprintf("position %d: read back %s %s, which is not the first queued non-expired operation of a distinct suffix (want %s; duplicate %v)", pos, got.Type, got.UniqueSuffix, want.Type, seenBack[got.UniqueSuffix])
+		}
+		seenBack[got.UniqueSuffix] = true
 		wv, e1 := refjcs.Parse(want.Request)
 		gv, e2 := refjcs.Parse(got.OperationRequest)
 		if e1 != nil || e2 != nil || !refjcs.Equal(wv, gv) {
@@ -201,7 +211,7 @@ func reqSetOf(c *Case, idx []int) string {
 }
 
 func TestBatchRoundTrip(t *testing.T) {
-	ev.Rule(chk, "rapid: batches of 1-40 valid queued operations over 1-6 DIDs, or (one in four) over 7-40 DIDs so that the files themselves carry up to 40 operations, half of those with one shared document template (highly compressible chunk files): any mix and order of the four types, repeated suffixes (2+ operations for one DID), deactivate-only, update-only, create-only, single-operation batches, operations the intake time validator reports as expired, anchor origins of several JSON types, all key types and both hash algorithms, deltas over all eight patch actions; real OperationHandler and OperationProvider over one in-memory CAS with gzip; oracle: read-back = first non-expired queued operation per suffix, ordered create / recover / update / deactivate (queue order inside a group), same type, suffix, JSON-equal request, embedded anchor origin for create / recover; anchor string count == operations read back; references, additional and expired partition the queued multiset; non-trivial = repeated suffix, or >= 3 types, or an expired operation")
+	ev.Rule(chk, "rapid: batches of 1-40 valid queued operations over 1-6 DIDs, or (one in four) over 7-40 DIDs so that the files themselves carry up to 40 operations, half of those with one shared document template (highly compressible chunk files): any mix and order of the four types, repeated suffixes (2+ operations for one DID), deactivate-only, update-only, create-only, single-operation batches, operations the intake time validator reports as expired, anchor origins of several JSON types, all key types and both hash algorithms, deltas over all eight patch actions; real OperationHandler and OperationProvider over one in-memory CAS with gzip; oracle: read-back = first non-expired queued operation per suffix, ordered create / recover / update / deactivate (any order inside a group), same type, suffix, JSON-equal request, embedded anchor origin for create / recover; anchor string count == operations read back; references, additional and expired partition the queued multiset; non-trivial = repeated suffix, or >= 3 types, or an expired operation")
 	ev.Rapid(t, chk, 300, 4000, func(t *rapid.T) {
 		code := rapid.SampledFrom([]uint64{asm.SHA256, asm.SHA512}).Draw(t, "hash")
 		c := &Case{Code: code, Ops: gen.Batch(t, code, 40, true, "c13")}
